@@ -152,7 +152,9 @@ fn first_missed_break(sentence: &str, abs: usize, text: &str, occ: &[(usize, usi
 fn gen_lexicon(rng: &mut Rng, nid: i64) -> (Lexicon, Vec<String>) {
     let pool = dictgen::pos_pool();
     let mut lex = Lexicon::default();
-    let base = ["あい", "うえ", "東京", "都", "です", "と", "A", "1", "モーニング娘。", "な。な", "Yahoo!", "。", "！", "?", "。」", "い。", "」x", "…と", "a.b", "<br>", "・・", "OK!", "a?", "x.", "ﾅ!", "1。"];
+    // (the last ones: words of 11-30 bytes made of 1- and 2-byte characters with the terminator late in the word)
+    let base = ["あい", "うえ", "東京", "都", "です", "と", "A", "1", "モーニング娘。", "な。な", "Yahoo!", "。", "！", "?", "。」", "い。", "」x", "…と", "a.b", "<br>", "・・", "OK!", "a?", "x.", "ﾅ!", "1。",
+        "EverybodyWantsSome!!", "Supercalifragilistic!Expo", "Здравствуйте!Мир", "abcdefghijklmnopqrstuvwxyz12.3", "ääääääääääää?ä"];
     for (i, w) in base.iter().enumerate() {
         if i < 3 || rng.chance(1, 2) {
             lex.entries.push(Entry::simple(w, rng.range(0, nid - 1) as i16, rng.range(0, nid - 1) as i16, rng.range(0, 5000) as i16, &pool[i % pool.len()]));
@@ -199,7 +201,7 @@ fn gen_text(rng: &mut Rng, words: &[String], max_parts: usize) -> String {
             9 => s.push_str(rng.s(&["と", "っ", "です", "や", "の", "で"])),
             10 => s.push_str(rng.s(&["<br>", "<br><br>", "<BR><BR>", "<br><BR><br>", "<Br><Br>"])),
             11 => s.push_str(rng.s(&["・", "・・", "・・・", "・・・・"])),
-            12 => s.push_str(rng.s(&[",", "，", "、"])),
+            12 => s.push_str(rng.s(&[",", "，", "、", "\\", "\\n", "\\server"])),
             13 | 14 if !words.is_empty() => s.push_str(rng.pick(words).as_str()),
             _ => s.push_str(crate::textgen::pick_char(rng)),
         }
